@@ -375,10 +375,26 @@ def check_observation(ctx, obs, serials, backend, pname, names, how):
     ctx.count('algorithm_state_counters_checked')
     if stored != actual and not problems:
       problems.append(('lost-algorithm-state', f'algorithm ran {actual}x but its persisted counter says {stored}'))
+  stop = False
   for kind, text in problems[:1]:
-    ctx.violation(classify(names, kind, text, obs), f'{backend} prefix={pname} S={list(names)} schedule={sch.schedule_string()}: {text}'[:700],
+    mech = classify(names, kind, text, obs)
+    ctx.violation(mech, f'{backend} prefix={pname} S={list(names)} schedule={sch.schedule_string()}: {text}'[:700],
                   case)
-  return not problems
+    # a listed finding must not hide a different violation reachable by another schedule
+    # of the same combination: exploration only stops at mechanisms that are not listed
+    if mech not in _known_mechs():
+      stop = True
+  return not stop
+
+
+_KNOWN = {}
+
+
+def _known_mechs():
+  if 'm' not in _KNOWN:
+    from vv import common
+    _KNOWN['m'] = {k['id'] for k in common.load_known_findings().get('findings', []) if k['property'] == PROPERTY}
+  return _KNOWN['m']
 
 
 def explore_combo(ctx, backend, pname, names, max_pre, cap, n_random, rng):
